@@ -1827,7 +1827,11 @@ func (s *sev) exec(fr *sevFrame, st ast.Stmt) ctl {
 		}
 		s.abort("branch %s", x.Tok)
 	case *ast.ForStmt:
-		s.abort("for loop")
+		// the classic index loop over a collection is a range over it: for i := 0; i < len(X); i++ { … X[i] … }
+		if rs := indexLoopAsRange(x); rs != nil {
+			return s.scoped(fr, func() ctl { return s.execRange(fr, rs) })
+		}
+		s.abort("for loop of a shape other than `for i := 0; i < len(x); i++`")
 	}
 	s.abort("statement %T", st)
 	return ctlNone
@@ -2040,6 +2044,44 @@ func (s *sev) execTypeSwitch(fr *sevFrame, x *ast.TypeSwitchStmt) ctl {
 		return run(def, nil)
 	}
 	return ctlNone
+}
+
+// indexLoopAsRange rewrites `for i := 0; i < len(X); i++ {body}` as `for i := range X {body}` (the body may only use i
+// to index X, which the range evaluation checks by resolving X[i] to the representative element).
+func indexLoopAsRange(f *ast.ForStmt) *ast.RangeStmt {
+	init, ok := f.Init.(*ast.AssignStmt)
+	if !ok || init.Tok != token.DEFINE || len(init.Lhs) != 1 || len(init.Rhs) != 1 {
+		return nil
+	}
+	iv, ok := init.Lhs[0].(*ast.Ident)
+	if !ok {
+		return nil
+	}
+	if lit, ok := init.Rhs[0].(*ast.BasicLit); !ok || lit.Value != "0" {
+		return nil
+	}
+	cond, ok := f.Cond.(*ast.BinaryExpr)
+	if !ok || cond.Op != token.LSS {
+		return nil
+	}
+	if ci, ok := cond.X.(*ast.Ident); !ok || ci.Name != iv.Name {
+		return nil
+	}
+	call, ok := cond.Y.(*ast.CallExpr)
+	if !ok || len(call.Args) != 1 {
+		return nil
+	}
+	if fn, ok := call.Fun.(*ast.Ident); !ok || fn.Name != "len" {
+		return nil
+	}
+	post, ok := f.Post.(*ast.IncDecStmt)
+	if !ok || post.Tok != token.INC {
+		return nil
+	}
+	if pi, ok := post.X.(*ast.Ident); !ok || pi.Name != iv.Name {
+		return nil
+	}
+	return &ast.RangeStmt{Key: iv, Tok: token.DEFINE, X: call.Args[0], Body: f.Body}
 }
 
 func elemTypeOf(t types.Type) types.Type {
